@@ -613,15 +613,19 @@ func (fr *frame) concInt(v value, lo, hi int64, what string) int64 {
 	return k
 }
 
-func (fr *frame) concIndex(idx value, n int) int {
+func (fr *frame) concIndex(idx value, n int, it types.Type) int {
 	if s, ok := idx.(*sym); ok {
 		ts := fr.i.ts
-		t64 := ts.Resize(s.t, 64, true)
+		t64 := ts.Resize(s.t, 64, isSigned(it))
 		inb := ts.bvCmp("bvult", t64, ts.BV(uint64(n), 64))
 		if !fr.cond(boolVal(inb)) {
 			panic(runtimeErr{fmt.Sprintf("index out of range [symbolic] with length %d", n)})
 		}
-		return int(signExt(fr.concretize(s, "index"), s.t.sort.w))
+		v := fr.concretize(s, "index")
+		if isSigned(it) {
+			return int(signExt(v, s.t.sort.w))
+		}
+		return int(v)
 	}
 	k := asInt64(idx)
 	if k < 0 || k >= int64(n) {
@@ -632,7 +636,7 @@ func (fr *frame) concIndex(idx value, n int) int {
 
 // indexRead reads elems[idx]; for a symbolic index over scalar elements the
 // result is an ite chain.
-func (fr *frame) indexRead(elems []value, idx value) value {
+func (fr *frame) indexRead(elems []value, idx value, it types.Type, et types.Type) value {
 	s, ok := idx.(*sym)
 	if !ok {
 		k := asInt64(idx)
@@ -643,39 +647,26 @@ func (fr *frame) indexRead(elems []value, idx value) value {
 	}
 	n := len(elems)
 	ts := fr.i.ts
-	t64 := ts.Resize(s.t, 64, true)
+	t64 := ts.Resize(s.t, 64, isSigned(it))
 	inb := ts.bvCmp("bvult", t64, ts.BV(uint64(n), 64))
 	if !fr.cond(boolVal(inb)) {
 		panic(runtimeErr{fmt.Sprintf("index out of range [symbolic] with length %d", n)})
 	}
 	// scalar elements of a single kind?
-	scalar := n > 0 && n <= 512
 	var kind types.BasicKind
-	if scalar {
-		for k, e := range elems {
-			bk, ok := scalarKind(e)
-			if !ok {
-				if se, ok2 := e.(*sym); ok2 && k > 0 {
-					_ = se
-					continue
-				}
-				scalar = false
-				break
-			}
-			if k == 0 || kind == types.Invalid {
-				kind = bk
-			}
-		}
+	scalar := false
+	if b := basicOf(et); b != nil && n > 0 && n <= 512 && b.Info()&(types.IsInteger|types.IsBoolean|types.IsFloat) != 0 {
+		kind = b.Kind()
+		scalar = true
 	}
 	if scalar && kind != types.Invalid {
-		r := fr.i.termOf(elems[n-1])
-		for k := n - 2; k >= 0; k-- {
-			r = ts.Ite(ts.Eq(t64, ts.BV(uint64(k), 64)), fr.i.termOf(elems[k]), r)
-		}
-		return mkSym(r, kind)
+		return mkSym(fr.i.iteChain(elems, t64), kind)
 	}
-	k := int(signExt(fr.concretize(s, "index"), s.t.sort.w))
-	return elems[k]
+	v := fr.concretize(s, "index")
+	if isSigned(it) {
+		return elems[int(signExt(v, s.t.sort.w))]
+	}
+	return elems[int(v)]
 }
 
 func scalarKind(v value) (types.BasicKind, bool) {
